@@ -11,7 +11,12 @@ func main() {
 	mode := flag.String("mode", "sort", "sort | limit | limtok | e2e12 | ...")
 	n := flag.Int("n", 100, "number of cases")
 	seed := flag.Int64("seed", 1, "PRNG seed")
+	file := flag.String("file", "", "rerun: a replay file written by bin/check or one recorded case")
 	flag.Parse()
+	if *mode == "rerun" {
+		rerun(*file)
+		return
+	}
 	r := rand.New(rand.NewSource(*seed))
 	switch *mode {
 	case "sort":
